@@ -268,18 +268,37 @@ def arr_vals(a):
     return ','.join(val_str(x, k) for x in a.flatten().tolist())
 
 
-def dump_state(obj):
+def _safe(f):
+    """An observation that raises is reported as `!<exception class>` (and so disagrees with the model) instead of
+    stopping the run."""
+    try:
+        return f()
+    except Exception as e:  # noqa: BLE001
+        return '!' + type(e).__name__
+
+
+def _values_str(obj):
     try:
         v = obj.values
-        vs = shape_str(v.shape) + '/' + dtype_str(v)
-    except ValueError:
-        vs = '!ValueError'
-    series = []
-    for name in obj.index:
-        a = np.asarray(obj[name])
-        series.append(f'{name}:{dtype_str(a)}:{shape_str(a.shape)}:{arr_vals(a)}')
-    return (f"index={','.join(obj.index)}|attrs={','.join(obj._attributes)}|strict={'T' if obj.strict else 'F'}"
-            f"|size={obj.size}|nbytes={obj.nbytes}|vshape={vs}|" + ';'.join(series))
+        return shape_str(v.shape) + '/' + dtype_str(v)
+    except Exception as e:  # noqa: BLE001
+        return '!' + type(e).__name__
+
+
+def _series_str(obj, name):
+    a = np.asarray(obj[name])
+    return f'{name}:{dtype_str(a)}:{shape_str(a.shape)}:{arr_vals(a)}'
+
+
+def dump_state(obj):
+    index = _safe(lambda: list(obj.index))
+    names = index if isinstance(index, list) else []
+    series = [_safe(lambda n=n: _series_str(obj, n)) for n in names]
+    return ('index=' + (','.join(index) if isinstance(index, list) else index) +
+            '|attrs=' + _safe(lambda: ','.join(obj._attributes)) +
+            '|strict=' + _safe(lambda: 'T' if obj.strict else 'F') +
+            '|size=' + _safe(lambda: str(obj.size)) + '|nbytes=' + _safe(lambda: str(obj.nbytes)) +
+            '|vshape=' + _values_str(obj) + '|' + ';'.join(series))
 
 
 def read_str(r):
@@ -292,7 +311,13 @@ def read_str(r):
 
 
 def snapshot(obj):
-    return {name: np.array(obj[name], copy=True) for name in obj.index}
+    out = {}
+    for name in obj.index:
+        try:
+            out[name] = np.array(obj[name], copy=True)
+        except Exception:  # noqa: BLE001  (a name in the index without a series: reported by the oracles)
+            out[name] = np.array(['<unreadable>'], dtype=object)
+    return out
 
 
 def same_array(a, b):
